@@ -229,7 +229,7 @@ def _(n, T):
     return [F(n, "str_val", [P("a", "str_cref"), P("b", "str_cref")])]
 
 
-@shape("vec_in", types=["int", "double", "int64_t", "long"], langs=("c++",), wraps=("c", "fortran"), doc="vectors.yaml vector_sum")
+@shape("vec_in", types=["int", "double", "int64_t", "long"], langs=("c++",), wraps=("c", "fortran", "python"), doc="vectors.yaml vector_sum (Python: PY_array_arg list)")
 def _(n, T):
     # result type int for the fixed-width element types: the element type must then come from the vector alone
     return [F(n, T if T in ("int", "double") else "int", [P("v", "vec_in", T)])]
